@@ -539,3 +539,13 @@ M('C19', 'second parse attempt without end-of-expression assertion', 'expression
 M('C19', 'compound expression without closing parenthesis assertion', 'expression_v1.py', "            value = self.parse_subexpression_cast(omitted_indices)\n            self._consume_assert_equal(')')\n            value = value.replace(ast=('group', value.ast))", "            value = self.parse_subexpression_cast(omitted_indices)\n            self._consume()\n            value = value.replace(ast=('group', value.ast))", rule='R19.6')
 M('C19', 'mean braces: closing brace not asserted', 'expression_v1.py', "            self._consume_assert_equal('}')\n", "            self._consume()\n", rule='R19.6')
 M('C19', 'benign: end assertion with default message', 'expression_v1.py', "            parser._consume_assert_equal('EOF', msg='Unexpected symbol at end of expression.')\n            return value.ast, arg_shapes", "            parser._consume_assert_equal('EOF')\n            return value.ast, arg_shapes", expect='silent')
+M('C13', 'seed C13-agent2-1: replaced names dropped after joining', 'function.py', "        unreplaced = {name: shape_dtype for name, shape_dtype in arg.arguments.items() if name not in self._replacements}\n        arguments = _join_arguments([unreplaced] + [replacement.arguments for replacement in self._replacements.values()])", "        arguments = _join_arguments([arg.arguments] + [replacement.arguments for replacement in self._replacements.values()])\n        arguments = {name: shape_dtype for name, shape_dtype in arguments.items() if name not in self._replacements}", rule='R13.5')
+M('C13', 'benign: unreplaced table under another name', 'function.py', "        unreplaced = {name: shape_dtype for name, shape_dtype in arg.arguments.items() if name not in self._replacements}\n        arguments = _join_arguments([unreplaced] + [replacement.arguments for replacement in self._replacements.values()])", "        kept = {name: shape_dtype for name, shape_dtype in arg.arguments.items() if name not in self._replacements}\n        arguments = _join_arguments([kept] + [replacement.arguments for replacement in self._replacements.values()])", expect='silent')
+M('C15', 'seed C15-agent2-1: diagonal position compared with the end of the whole index array', 'matrix/_base.py', "            icols = indices[indptr[irow]:indptr[irow+1]]\n            idiag = numpy.searchsorted(icols, irow)\n            diag[irow] = data[indptr[irow]+idiag] if idiag < len(icols) and icols[idiag] == irow else 0", "            i, j = indptr[irow:irow+2]\n            idiag = i + numpy.searchsorted(indices[i:j], irow)\n            diag[irow] = data[idiag] if idiag < len(indices) and indices[idiag] == irow else 0", rule='R15.10')
+M('C15', 'diagonal position read before the end test', 'matrix/_base.py', "if idiag < len(icols) and icols[idiag] == irow else 0", "if icols[min(idiag, len(icols)-1)] == irow else 0", rule='R15.10')
+M('C15', 'MKL diagonal dominance reads the position without the row-end test', 'matrix/_mkl.py', "diagdom = diagdom and d < m and self.colidx[d] == irow and", "diagdom = diagdom and d < len(self.colidx) and self.colidx[d] == irow and", rule='R15.10')
+M('C15', 'benign: diagonal in global CSR coordinates with the row end', 'matrix/_base.py', "            icols = indices[indptr[irow]:indptr[irow+1]]\n            idiag = numpy.searchsorted(icols, irow)\n            diag[irow] = data[indptr[irow]+idiag] if idiag < len(icols) and icols[idiag] == irow else 0", "            i, j = indptr[irow:irow+2]\n            idiag = i + numpy.searchsorted(indices[i:j], irow)\n            diag[irow] = data[idiag] if idiag < j and indices[idiag] == irow else 0", expect='silent')
+M('C16', 'seed C16-agent2-2: diagonal view of the output bound to a fresh variable', 'evaluable.py', "        out_diag = _pyast.Variable('numpy').get_attr('einsum').call(_pyast.LiteralStr('...ii->...i'), out)\n        if mode == 'assign':", "        out_diag = _pyast.Variable('numpy').get_attr('einsum').call(_pyast.LiteralStr('...ii->...i'), out)\n        out_diag = builder.get_block_for_evaluable(self, block_id=out_block_id, comment='diagonal view').eval(out_diag)\n        if mode == 'assign':", rule='R16.6')
+M('C19', 'seed C19-agent2-1: substituted value not transposed to the argument order', 'expression_v1.py', "        rhs = rhs.transpose(lhs.indices)\n        return lhs, rhs", "        return lhs, rhs", rule='R19.7')
+M('C19', 'add/sub without transposing the right operand', 'expression_v1.py', "        other = other.transpose(self.indices)\n        shape, linked_lengths = self._join_shapes(other)\n        return _Array((op, self.ast, other.ast)", "        shape, linked_lengths = self._join_shapes(other)\n        return _Array((op, self.ast, other.ast)", rule='R19.7')
+M('C19', 'benign: substitution transposes the left side instead', 'expression_v1.py', "        rhs = rhs.transpose(lhs.indices)\n        return lhs, rhs", "        rhs = rhs.transpose(lhs.indices)\n        assert rhs.indices == lhs.indices\n        return lhs, rhs", expect='silent')
